@@ -89,6 +89,8 @@ EbnfOf(g, root) == LET o == Order(g, root) IN [k \in 1..Len(o) |-> [name |-> o[k
 \* ---- the clauses of C14 on a parsed text `t` (sequence of [name, expr]) ------------------------------------------
 Names(t) == [k \in 1..Len(t) |-> t[k].name]
 DefinedOnce(t) == \A a, b \in 1..Len(t) : t[a].name = t[b].name => a = b
+\* (productions implemented by user code - Parseable types, ParseTypeWith - are referenced but have no body to print)
+AllRefsDefinedBut(t, user) == \A k \in 1..Len(t) : LET rs == RefsExpr(t[k].expr) IN \A r \in 1..Len(rs) : rs[r] \in user \/ \E d \in 1..Len(t) : t[d].name = rs[r]
 AllRefsDefined(t) == \A k \in 1..Len(t) : LET rs == RefsExpr(t[k].expr) IN \A r \in 1..Len(rs) : \E d \in 1..Len(t) : t[d].name = rs[r]
 RootFirst(t, root) == Len(t) >= 1 /\ t[1].name = root
 SameUpToParens(t, u) == Len(t) = Len(u) /\ \A k \in 1..Len(t) : t[k].name = u[k].name /\ NormExpr(t[k].expr) = NormExpr(u[k].expr)
